@@ -19,7 +19,9 @@ Spec forms added to the clause language (all exact definitions or uninterpreted 
 Lemma forms (each returns the ground instance of a theorem about an uninterpreted symbol, and records it as a fact; they are
 listed as TRUSTED mathematical facts in the evidence, see LEMMA_TEXT):
   be_cat(a, b)       be(a + b) == be(a) * 256**len(b) + be(b)
+  be_split(s, i, j)  0 <= i <= j <= len(s) ==> be(s[:j]) == be(s[:i]) * 256**(j-i) + be(s[i:j])    (be_cat on prefixes)
   be_lt(b)           be(b) < 256**len(b)
+  be_zeros(n)        be(b'\\x00' * n) == 0
   modpow_reduce(b, e, m)   m > 0 ==> modpow(b % m, e, m) == modpow(b, e, m)
   pow2_add(a, b)     a, b >= 0 ==> 2**(a + b) == 2**a * 2**b
   mulmod_reduce(a, b, m)   m > 0 ==> ((a % m) * (b % m)) % m == (a * b) % m
@@ -36,7 +38,7 @@ models.SEQ_LEN_ARG['tape'] = 2            # len(tape(id, pos, n)) == n for n >= 
 SYS_POS0 = z3.Int('sys_pos0')
 
 LEMMA_TEXT = ['be(a ++ b) == be(a) * 256**len(b) + be(b)   (positional notation; induction on len(b))',
-              'be(b) < 256**len(b)',
+              'be(b) < 256**len(b)', "be(b'\\x00' * n) == 0",
               '(b mod m)**e == b**e (mod m) for m > 0   (Mathlib: Int.ModEq.pow)', '2**(a + b) == 2**a * 2**b for a, b >= 0   (pow_add)',
               '((a mod m) * (b mod m)) mod m == (a * b) mod m for m > 0   (Int.mul_emod)',
               'ground facts attached to the uninterpreted symbols pow2, ipow, modpow, modinv, gcd, bitlen, be, le, rev '
@@ -111,10 +113,51 @@ def sf_bitor(E, st, args, kw):
 
 # ---------------------------------------------------------------- lemma instances (trusted theorems, ground)
 
+def _p256(E, st, ln):
+    ln = z3.simplify(ln)
+    if z3.is_int_value(ln) and 0 <= ln.as_long() <= 4096:
+        return z3.IntVal(256 ** ln.as_long())
+    return ops.pow2(E, st, 8 * ln)
+
+
+def sf_be_split(E, st, args, kw):
+    """be_split(s, i, j): 0 <= i <= j <= len(s) ==> be(s[:j]) == be(s[:i]) * 256**(j - i) + be(s[i:j])   (be_cat on prefixes: no
+    concatenation term for the solver to match)"""
+    sv, i, j = args
+    sink = []
+    a = ops.slice_bytes(E, sv, slice(None, i), st, sink)
+    b = ops.slice_bytes(E, sv, slice(i, j), st, sink)
+    c = ops.slice_bytes(E, sv, slice(None, j), st, sink)
+    zi, zj = zint(i), zint(j)
+    eq = models.be_value(E, st, zbytes(c)) == _be_term(E, st, zbytes(a)) * _p256(E, st, zj - zi) + _be_term(E, st, zbytes(b))
+    t = z3.Implies(z3.And(zi >= 0, zi <= zj, zj <= z3.Length(zbytes(sv))), eq)
+    st.fact(t)
+    return val(st, mk_bool(t))
+
+
+def sf_be_zeros(E, st, args, kw):
+    """be(b'\\x00' * n) == 0"""
+    z = zbytes(ops.replicate(E, b'\x00', args[0], st))
+    t = models.be_value(E, st, z) == 0
+    st.fact(t)
+    return val(st, mk_bool(t))
+
+
+def _be_term(E, st, zs):
+    """be(zs): written out digit by digit when the path condition fixes a short length (as struct.unpack does)"""
+    ln = z3.simplify(models.seq_length(E, st, zs))
+    if z3.is_int_value(ln) and ln.as_long() <= 16:
+        t = z3.IntVal(0)
+        for i in range(ln.as_long()):
+            t = t * 256 + ops.byte_int(E, st, zs[i])
+        return t
+    return models.be_value(E, st, zs)
+
+
 def sf_be_cat(E, st, args, kw):
     a, b = (zbytes(x) for x in args)
     lb = models.seq_length(E, st, b)
-    t = models.be_value(E, st, z3.Concat(a, b)) == models.be_value(E, st, a) * ops.pow2(E, st, 8 * lb) + models.be_value(E, st, b)
+    t = models.be_value(E, st, z3.Concat(a, b)) == _be_term(E, st, a) * _p256(E, st, lb) + _be_term(E, st, b)
     st.fact(t)
     return val(st, mk_bool(t))
 
@@ -277,7 +320,7 @@ def sf_kwargs_only(E, st, args, kw):
 
 
 FORMS = {'ival': sf_ival, 'ipow': sf_ipow, 'modpow': sf_modpow, 'modinv': sf_modinv, 'gcd': sf_gcd, 'bitlen': sf_bitlen,
-         'bitand': sf_bitand, 'bitor': sf_bitor, 'be_cat': sf_be_cat, 'be_lt': sf_be_lt, 'modpow_reduce': sf_modpow_reduce, 'mulmod_reduce': sf_mulmod_reduce, 'pow2_add': sf_pow2_add,
+         'bitand': sf_bitand, 'bitor': sf_bitor, 'be_cat': sf_be_cat, 'be_split': sf_be_split, 'be_lt': sf_be_lt, 'be_zeros': sf_be_zeros, 'modpow_reduce': sf_modpow_reduce, 'mulmod_reduce': sf_mulmod_reduce, 'pow2_add': sf_pow2_add,
          'lemma': sf_lemma, 'systape': sf_systape, 'tape_of': sf_tape_of, 'tape': sf_tape, 'tapei': sf_tapei, 'kwarg': sf_kwarg, 'kwargs_only': sf_kwargs_only, 'all_of': sf_all_of, 'any_of': sf_any_of, 'imp': sf_imp}
 for _nm, _fn in FORMS.items():
     interp.SPEC_BUILTINS.setdefault(_nm, BuiltinV('spec.' + _nm, _fn))
